@@ -1234,7 +1234,7 @@ def run(ctx: Ctx, driver_ok: bool) -> None:
         registry_family(ctx, tmp, batch)
         corpus(ctx, tmp, batch)
         flush(ctx, batch, drv)
-        n = ctx.pick(70, 900)
+        n = ctx.pick(70, 700)
         for i in range(n):
             size = ctx.rng.choice([8, 12, 16, 24, 32])
             one_schema(ctx, drv, batch, i, tmp, size, n_perm=ctx.pick(2, 3), n_split=ctx.pick(3, 5),
